@@ -11,7 +11,7 @@ wrote, or what the initiator kept of the one it read -/
 def lastList : List Ev → List Feature
   | [] => []
   | .listOut _ fs _ :: _ => fs
-  | .listIn _ fs :: _ => fs
+  | .listIn _ fs _ :: _ => fs
   | _ :: rest => lastList rest
 
 /-- every `Negotiate` call is for a feature of the current list, except the forced one -/
@@ -101,36 +101,61 @@ theorem invL_step (C : List Feature) (O : Oracle) (c : Conf) (h : InvL C c) : In
     | (simp_all; done)
     | skip
 
-/-- the initiator's cache -/
-structure InvP (C : List Feature) (c : Conf) : Prop where
+/-- the initiator's cache; `script0` is the peer script the run started with -/
+structure InvP (C : List Feature) (script0 : List Peer) (c : Conf) : Prop where
   pre : c.pc = .readList → c.cache = []
-  parsing : inParsing c.pc = true → ∀ e ∈ c.cache, e.f ∈ C ∧ eligible c.st e.f = true
-  inOK : ∀ st fs, Ev.listIn st fs ∈ c.tr → ∀ f ∈ fs, f ∈ C ∧ eligible st f = true
+  /-- items still to be parsed belong to the list being read -/
+  rem : ∀ items, c.pc = .parsing items → ∀ i ∈ items, i ∈ c.curAdv
+  /-- the list being read is an item of the peer script -/
+  advSrc : c.curAdv = [] ∨ Peer.adv c.curAdv ∈ script0
+  parsing : inParsing c.pc = true → ∀ e ∈ c.cache,
+    e.f ∈ C ∧ eligible c.st e.f = true ∧ ∃ req, AdvItem.feat e.f.name req ∈ c.curAdv
+  inOK : ∀ st fs adv, Ev.listIn st fs adv ∈ c.tr → (adv = [] ∨ Peer.adv adv ∈ script0) ∧
+    ∀ f ∈ fs, f ∈ C ∧ eligible st f = true ∧ ∃ req, AdvItem.feat f.name req ∈ adv
 
-theorem invP_step (C : List Feature) (O : Oracle) (c : Conf) (h : InvP C c) : InvP C (step C O c) := by
-  obtain ⟨h0, h7, h8⟩ := h
+theorem find_name {C : List Feature} {name : FName} {f : Feature}
+    (h : C.find? (fun f => f.name == name) = some f) : f.name = name := by
+  have := List.find?_some h
+  simpa using this
+
+theorem invP_step (C : List Feature) (O : Oracle) (script0 : List Peer) (c : Conf)
+    (hsub : ∀ p ∈ c.script, p ∈ script0) (h : InvP C script0 c) : InvP C script0 (step C O c) := by
+  obtain ⟨h0, hr, ha, h7, h8⟩ := h
   step_all
   all_goals (constructor <;> (try dsimp only))
   all_goals first
     | exact h0
+    | exact hr
+    | exact ha
     | exact h7
     | exact h8
     | (intro h; cases h; done)
+    | (intro _ h; cases h; done)
     | (intro _; rfl)
-    | (intro st fs hm
+    | (intro items hi; cases hi; intro i hi; exact hi)
+    | (intro items hi; cases hi; intro i hi
+       exact hr _ ‹c.pc = _› i (List.mem_cons_of_mem _ hi))
+    | (right; exact hsub _ (by simp_all))
+    | (intro st fs adv hm
        simp only [List.mem_cons] at hm
        rcases hm with hm | hm
        · first
          | (cases hm; done)
          | (cases hm
+            refine ⟨ha, ?_⟩
             intro f hf
             obtain ⟨e, he, rfl⟩ := List.mem_map.mp hf
             exact h7 (by simp_all [inParsing]) e he)
-       · exact h8 _ _ hm)
+       · exact h8 _ _ _ hm)
     | (intro _ e he
        have hh := put_mem he
+       have hn := find_name ‹List.find? _ C = some _›
+       have hmem := List.mem_of_find?_eq_some ‹List.find? _ C = some _›
+       have hin := hr _ ‹c.pc = _› _ List.mem_cons_self
        rcases hh with rfl | hh
-       · exact ⟨List.mem_of_find?_eq_some ‹List.find? _ C = some _›, by simp_all⟩
+       · dsimp only
+         rw [hn]
+         exact ⟨hmem, ‹eligible c.st _ = true›, _, hin⟩
        · exact h7 (by simp_all [inParsing]) e hh)
     | (simp_all [inParsing]; done)
     | skip
